@@ -146,12 +146,17 @@ def levels(topo, root, result, env, maxlevels=400):
 EARLY = {"asserted": 0, "degraded_not_asserted": 0}
 
 
-def observe_case(topo, root, variant, depths, events, meta, early=False):
+def observe_case(topo, root, variant, depths, events, meta, early=False, falsy=False):
     import typelib
     fin = finite(topo)
     if root[1] not in fin:
         return
     defs = topo_defs(topo, variant)
+    if falsy:
+        # the dataclasses of the case are falsy and claim length 0 (a node whose __len__ counts its children, a status record)
+        for d in defs.values():
+            if d["flavour"] == "dataclass":
+                d["flavour"] = "dc_falsy"
     env = Env(defs, tag="r")
     if early:
         # (module-less references of one failed build compare equal to those of same-named classes of the next case and
@@ -186,7 +191,7 @@ def observe_case(topo, root, variant, depths, events, meta, early=False):
         env.dispose(); return
     EARLY["asserted"] += 1 if early else 0
     ann = env.annotation(field_type(root))
-    info = {"topo": topo, "root": root, "variant": variant, "early_build": early}
+    info = {"topo": topo, "root": root, "variant": variant, "early_build": early, "falsy": falsy}
 
     def lev(d, what, out, converted=True):
         events.append({"ev": "level", "T": {"k": "any"}, "out": out, "converted": converted, "check": "flat"})
@@ -288,7 +293,8 @@ def _run(ctx: Ctx, box):
     for k, c in enumerate(cases):
         deep = ndeep and k % max(1, len(cases) // ndeep) == 0
         n0 = len(meta)
-        observe_case(c["topo"], c["root"], k % 5, depths + ([50, 100, 150] if deep else []), events, meta, early=(k % 4 == 3))
+        observe_case(c["topo"], c["root"], k % 5, depths + ([50, 100, 150] if deep else []), events, meta, early=(k % 4 == 3),
+                     falsy=(k % 5 in (0, 3) and k % 3 == 1))
         if k % 4 == 3:
             clear_typelib_caches()
             if c["root"][0] != "cls" and k % 8 == 7:
@@ -356,7 +362,7 @@ def replay(ctx: Ctx, rep: dict) -> Outcome:
     m = rep["case"]
     sys.setrecursionlimit(30000)
     events, meta = [], []
-    observe_case(m["topo"], m["root"], m["variant"], [m["depth"]] if m["depth"] >= 0 else [0], events, meta, early=m.get("early_build", False))
+    observe_case(m["topo"], m["root"], m["variant"], [m["depth"]] if m["depth"] >= 0 else [0], events, meta, early=m.get("early_build", False), falsy=m.get("falsy", False))
     for e, mm in zip(events, meta):
         print("  ", mm["what"], mm["depth"], e.get("out", e.get("flags")), e.get("converted", e.get("reach")))
     _, rejects = tlc.validate_trace("Member_Trace", "Member_Trace.cfg", events)
